@@ -290,6 +290,8 @@ type dynInterp struct {
 	universe []atom
 	dataPos  map[*ssa.Function]map[int]bool // parameter positions that carry the validated datum
 	newPos   bool
+	reached  map[*ssa.BasicBlock]bool // blocks reached by some abstract run
+	analysed map[*ssa.Function]bool
 }
 
 func ctxKey(f *ssa.Function, args []aval) string {
@@ -386,10 +388,12 @@ func (di *dynInterp) run(f *ssa.Function, args []aval, depth int) aval {
 	work := []*ssa.BasicBlock{f.Blocks[0]}
 	reach[f.Blocks[0]] = true
 	iter := 0
+	di.analysed[f] = true
 	for len(work) > 0 && iter < 4000 {
 		iter++
 		b := work[0]
 		work = work[1:]
+		di.reached[b] = true
 		changedHere := false
 		for _, ins := range b.Instrs {
 			var nv aval
@@ -903,8 +907,14 @@ var goTypedDomain = []atom{aNil, aBool, aString, aFloat32, aFloat64, aInt, aInt8
 // atom a with T.Applies(_, kind(a)) possibly true, from T.Validate with the datum fixed to a.
 func Dyn(ruleName string, entries []DynEntry, universe []atom, domainText string) Rule {
 	return func(p *core.Prog, r *core.Report) {
+		runDyn(p, r, ruleName, entries, universe, domainText)
+	}
+}
+
+func runDyn(p *core.Prog, r *core.Report, ruleName string, entries []DynEntry, universe []atom, domainText string) *dynInterp {
+	{
 		na := newNilAn(p)
-		di := &dynInterp{p: p, na: na, memo: map[string]aval{}, open: map[string]bool{}, issues: map[string]*dynIssue{}, atoms: map[string]map[string]bool{}, checked: map[ssa.Instruction]bool{}, universe: universe, dataPos: map[*ssa.Function]map[int]bool{}}
+		di := &dynInterp{p: p, na: na, memo: map[string]aval{}, open: map[string]bool{}, issues: map[string]*dynIssue{}, atoms: map[string]map[string]bool{}, checked: map[ssa.Instruction]bool{}, universe: universe, dataPos: map[*ssa.Function]map[int]bool{}, reached: map[*ssa.BasicBlock]bool{}, analysed: map[*ssa.Function]bool{}}
 		nRuns := 0
 		applies := map[string][]string{}
 		for round := 0; round < 5; round++ {
@@ -1016,6 +1026,7 @@ func Dyn(ruleName string, entries []DynEntry, universe []atom, domainText string
 			r.OK(ruleName, k, "-", fmt.Sprintf("%d site(s): legal for every dynamic type of the domain that reaches it", seqOK[k]))
 		}
 		r.Note("%s: %d abstract runs, %d contexts, %d panic-capable reflect/assertion sites evaluated, domain: %s", ruleName, nRuns, di.ctxCount, len(di.checked), domainText)
+		return di
 	}
 }
 
